@@ -1287,6 +1287,12 @@ fn choices_str(c: &[usize]) -> String {
 }
 
 fn report(class: &str, cap: Option<usize>, actor: bool, choices: &[usize], e: &(String, Vec<String>), out: &mut J) {
+    // the deterministic phases (large capacities, many handles, re-entrant payloads) are replayed as a whole
+    let replay = if matches!(class, "reentrant" | "plain" | "Z") {
+        "seqdiff --depth 0 --random 0 --bigfill q".to_string()
+    } else {
+        format!("seqdiff --replay --class {} --cap {} --actor {} --choices {}{}", class, cap_name(cap), actor as u8, choices_str(choices), if wide() { " --wide 1" } else { "" })
+    };
     let v = J::O(vec![
         ("engine".into(), J::s("seqdiff")),
         ("class".into(), J::s(class)),
@@ -1295,7 +1301,7 @@ fn report(class: &str, cap: Option<usize>, actor: bool, choices: &[usize], e: &(
         ("choices".into(), J::s(choices_str(choices))),
         ("calls".into(), J::A(e.1.iter().map(|s| J::s(s.clone())).collect())),
         ("what".into(), J::s(e.0.clone())),
-        ("replay".into(), J::s(format!("seqdiff --replay --class {} --cap {} --actor {} --choices {}{}", class, cap_name(cap), actor as u8, choices_str(choices), if wide() { " --wide 1" } else { "" }))),
+        ("replay".into(), J::s(replay)),
     ]);
     if let J::O(m) = out {
         for (k, x) in m.iter_mut() {
